@@ -19,6 +19,26 @@ sg=k.get('signatures',{})
 for s_ in fx.d['sigs']:
     if s_['path'] in k['functions']: sg[s_['path']]=_sig_text(s_)
 k['signatures']=sg
+from facts import body_fingerprint
+k['fingerprints']={b_['path']:body_fingerprint(b_) for b_ in fx.d['bodies'] if b_['path'] in k['functions'] and b_['kind'] in ('fn','assocfn')}
+k['consts']=sorted(c_['path'] for c_ in fx.d['consts'])
+k['locals']={}
+for b_ in fx.d['bodies']:
+    if b_['path'] in k['functions']:
+        ls=[]
+        for v in b_.get('debug',[]):
+            pl=v['place']
+            if pl['proj'] or pl['local']<=b_.get('arg_count',0): continue
+            e=[v['name'],b_['locals'][pl['local']].get('s','?')]
+            if e not in ls: ls.append(e)
+        if ls: k['locals'][b_['path']]=ls
+k['params']={}
+for b_ in fx.d['bodies']:
+    if b_['path'] in k['functions'] and b_['kind'] in ('fn','assocfn'):
+        nm={v['place']['local']:v['name'] for v in b_.get('debug',[]) if not v['place']['proj']}
+        if all(i in nm for i in range(1,b_['arg_count']+1)):
+            k['params'][b_['path']]=[[nm[i],b_['locals'][i].get('s','?')] for i in range(1,b_['arg_count']+1)]
+k['fields']={a['path']:[[f['name'],f['ty'].get('s','?')] for f in a['variants'][0]['fields']] for a in fx.d['adts'] if not a['is_enum'] and a['variants'] and a['path'].startswith(('internal::','CompoundFile','Entries','Entry','OpenOptions','CreateOptions'))}
 json.dump(k,open('/verif/rules/known_functions.json','w'),indent=0)
 # sink keys covered by each audited entry on this tree
 sys.path.insert(0,'/verif/engine/cfbsa')
